@@ -315,6 +315,33 @@ def _compare_rules(ck: Checker) -> None:
             for f in file_apps:
                 wit = cut(gh, [f], isdir_F)
                 ck.require(wit is None, "C09.kinds", h, gh.nodes[f], "file list receives only non-directory entries", "a directory entry can be queued as a file", witness=gh.fmt_path(wit) if wit else None)
+    # direct appends in _compare itself honour the entry kind as well
+    for n in g.nodes.values():
+        for c in calls_at(n):
+            if is_method_call(c, "append") and c.args and norm(c.func.value).split(".")[-1] in ("files_delete", "files_create", "dirs_delete", "dirs_create"):
+                lst = norm(c.func.value).split(".")[-1]
+                arg = norm(c.args[0])
+                side = "old" if arg.endswith(".old") else ("new" if arg.endswith(".new") else None)
+                if side is None:
+                    continue
+                want_dir = lst.startswith("dirs_")
+
+                def kind_lit(t, lab, side=side, want_dir=want_dir):
+                    if t.kind != "test":
+                        return False
+                    alts = " | ".join(norm(a) for a in [t.ast] + expand1(prog, cmp_, t.ast, levels=2))
+                    if f"{side}.meta" not in alts and f"{side}_meta" not in alts and f"{side}_isdir" not in norm(t.ast):
+                        return False
+                    isdir = ".isdir" in alts or "_isdir" in norm(t.ast)
+                    if want_dir:
+                        return isdir and lab == "T"
+                    return lab == "F"  # not isdir, or no meta at all
+
+                w = cut(g, [n.id], kind_lit)
+                ck.require(w is None, "C09.kinds", cmp_, n,
+                           f"{lst} receives change.{side} only after its kind was tested",
+                           f"change.{side} is appended to {lst} without testing whether it is a directory: a replaced directory would be handed to the recursive file removal (or a file to rmdir)",
+                           witness=g.fmt_path(w) if w else None)
     # executable files are always queued for chmod when queued for creation
     fc = [f for f in kids.values() if any(is_method_call(c, "append") and "files_create" in norm(c.func.value) for c, _ in res.calls_in(f))]
     ck.floor("C09.kinds", len(fc), 1, "closures that queue file creation")
@@ -397,6 +424,10 @@ def _error_rules(ck: Checker) -> None:
         body = [x for x in ga.nodes.values() if h.id in x.loops and x.id != h.id]
         ok = any(isinstance(c.func, ast.Name) and c.func.id == "onerror" for x in body for c in calls_at(x))
     ck.require(ok, "C09.errors", ap, rep[0] if rep else ap.node, "every failed directory load is reported through onerror", "apply() does not report diff.dirs_failed through onerror")
+    if rep:
+        w = avoiding_path(ga, ga.exit, lambda x: x.id == rep[0].id)
+        ck.require(w is None, "C09.errors", ap, rep[0], "failed directory loads are reported on every path through apply()",
+                   "apply() can return (e.g. an 'already up to date' early exit) before failed directory loads were reported through onerror", witness=ga.fmt_path(w) if w else None, construct="dirs_failed reporting / every path")
     cp = prog.func("index.checkout", "compare")
     # dirs_failed is the complete set collected by the error hook
     hook = [f for f in cp.children.values() if any(is_method_call(c, "add", "append") for c, _ in res.calls_in(f))]
